@@ -266,6 +266,14 @@ def corpus():
                  "body": [("simult", [("x", P.det(("add", v("y"), v("z")))), ("y", P.det(v("x")))]),
                           ("assign", "z", P.det(v("w"))), ("assign", "w", P.det(v("u"))), ("assign", "u", P.det(c(0)))]},
                 [{"x": 1}], "cycle+delay"))
+    # a transient special case that coincides with the general formula while a LATER one does not (E(x) = 0; 1; 0 ...):
+    # the printed list "v0; v1; ...; formula" is positional
+    out.append(({"types": [], "init": [("assign", "x", P.det(c(0))), ("assign", "y", P.det(c(1)))], "guard": ("true",),
+                 "body": [("assign", "x", P.det(v("y"))), ("assign", "y", ("choice", [(c(F(1, 2)), c(1)), (c(F(1, 2)), c(-1))]))]},
+                [{"x": 1}, {"x": 1, "y": 1}], "delay-special-case-equals-general"))
+    out.append(({"types": [], "init": [("assign", "w", P.det(c(0))), ("assign", "u", P.det(c(3))), ("assign", "t", P.det(c(0)))], "guard": ("true",),
+                 "body": [("assign", "w", P.det(v("u"))), ("assign", "u", P.det(v("t"))), ("assign", "t", P.det(c(0)))]},
+                [{"w": 1}, {"u": 1}], "delay-special-case-equals-general-2"))
     # 3. init constant defined from a loop variable
     out.append(({"types": [], "init": [("assign", "x", P.det(c(3))), ("assign", "k", P.det(("add", v("x"), c(1))))], "guard": ("true",),
                  "body": [("assign", "x", P.det(("add", v("x"), v("k"))))]}, [{"x": 1}], "init-constant-from-loop-var"))
